@@ -177,6 +177,12 @@ func (r *vfC17MRig) capViolation() {
 		if r.takingOver[id] {
 			how = "takeover"
 		}
+		if r.closedOnce[id] && r.cleanOf[id] {
+			// an earlier clean-session connection of this id was closed in this case: the late echo of
+			// ITS session deletion hits whichever connection holds the id now, however that one came
+			// about (since 5a3328e a superseded connection no longer deletes anything itself)
+			how = "reconnect"
+		}
 		switch {
 		case how == "takeover" && r.cleanOf[id]:
 			key = "clean-session-takeover: new connection dropped from the registry (socket left open) once the old connection is torn down, then a further client is admitted"
